@@ -5,6 +5,9 @@ import QtyModel.Generated.Synth
 import QtyModel.SIPrefix
 import QtyModel.Spec.SI
 import QtyModel.UnitSpec
+import QtyModel.Rate
+import QtyModel.Spec.Temperature
+import QtyModel.Generated.TempTable
 /-
   Line-protocol driver.
 
@@ -118,6 +121,35 @@ def ordStr : Option Ordering → String
   | none => "none"
 
 def bit (b : Bool) : String := if b then "1" else "0"
+
+def rateFields {A} (C : Codec A) (r : Rate A) : String :=
+  s!"{C.render r.termAmount} {r.termUnit} {C.render r.perMultiple} {r.perUnit}"
+
+def optQStr {A} (C : Codec A) : Res (Option (Q A Nat)) → String
+  | .ok (some q) => s!"some {q.unit} {C.render q.amount}"
+  | .ok none => "none"
+  | .error p => "panic:" ++ toString p
+
+def parseRows {A} (C : Codec A) (s : String) : Option (List (ConvRow A)) :=
+  if s == "-" then some [] else
+  (s.splitOn ";").mapM (fun r =>
+    match r.splitOn ":" with
+    | [f, t, fa, off] => do
+      let f ← f.toNat?
+      let t ← t.toNat?
+      let fa ← C.parse fa
+      let off ← C.parse off
+      pure { fromU := f, toU := t, factor := fa, offset := off }
+    | _ => none)
+
+/-- the regenerated temperature table for this back-end: constants resolved to unit indices -/
+def tempRows {A} (R : Arith A) (T : RTable A) : Option (List (ConvRow A)) :=
+  Gen.Temp.rows.mapM (fun (f, t, fa, off) => do
+    let fi ← T.units.toList.findIdx? (fun u => u.constName == f)
+    let ti ← T.units.toList.findIdx? (fun u => u.constName == t)
+    let fa ← R.ofLit fa
+    let off ← R.ofLit off
+    pure { fromU := fi, toU := ti, factor := fa, offset := off })
 
 section run
 variable {A : Type} (R : Arith A) (C : Codec A) (M : ErrModel) (W : World A)
@@ -289,66 +321,6 @@ def step (line impl : String) : String × Verdict :=
         | _ => .skip "no impl output"
       (out, v)
     | _, _, _, _, _ => bad
-  | [op, t, i, a, j, b] =>
-    match W.find t, i.toNat?, C.parse a, j.toNat?, C.parse b with
-    | some T, some i, some a, some j, some b =>
-      let x : Q A Nat := ⟨a, i⟩
-      let y : Q A Nat := ⟨b, j⟩
-      let wr := T.kind == .withRef
-      let s1 := R.val (T.scaleOf R i)
-      let s2 := R.val (T.scaleOf R j)
-      if op == "add" || op == "sub" then
-        let isSub := op == "sub"
-        let r := if wr then (if isSub then hrSub R (T.qt R) x y else hrAdd R (T.qt R) x y)
-                 else (if isSub then nrSub R x y else nrAdd R x y)
-        let out := resStr (qStr C) r
-        let own := if isSub then R.sub a b else R.add a b
-        let v : Verdict :=
-          if !wr then
-            -- C10
-            if i != j then check (impl == "panic:unit-mismatch") "different units of a type without reference unit must panic"
-            else check (impl == resStr (qStr C) (own.map (fun z => (⟨z, i⟩ : Q A Nat))))
-              "same-unit result differs from the amount type's own operator"
-          else match parseQ C impl with
-            | some (u', z) =>
-              match s1, s2 with
-              | some s1, some s2 =>
-                let sameOwn := match own with
-                  | .ok o => R.same z o
-                  | .error _ => false
-                Oracle.c03addsub M isSub i j u' s1 s2 (R.val a) (R.val b) sameOwn (R.val z)
-              | _, _ => .skip "non-finite scale"
-            | none => if impl.startsWith "panic:" then
-                        (if i == j then check (impl == resStr (qStr C) (own.map (fun z => (⟨z, i⟩ : Q A Nat))))
-                            "same-unit result differs from the amount type's own operator"
-                         else .skip "panic")
-                      else .skip "unparsed impl output"
-        (out, v)
-      else if op == "div" then
-        let r := if wr then hrDiv R (T.qt R) x y else nrDiv R x y
-        let out := resStr C.render r
-        let own := R.div a b
-        let v : Verdict :=
-          if !wr then
-            if i != j then check (impl == "panic:unit-mismatch") "different units of a type without reference unit must panic"
-            else check (impl == resStr C.render own) "same-unit quotient differs from the amount type's own operator"
-          else match C.parse impl with
-            | some z =>
-              match s1, s2 with
-              | some s1, some s2 =>
-                let sameOwn := match own with
-                  | .ok o => R.same z o
-                  | .error _ => false
-                Oracle.c03div M i j s1 s2 (R.val a) (R.val b) sameOwn (R.val z)
-              | _, _ => .skip "non-finite scale"
-            | none => if impl.startsWith "panic:" then
-                        (if i == j then check (impl == resStr C.render own)
-                            "same-unit quotient differs from the amount type's own operator"
-                         else .skip "panic")
-                      else .skip "unparsed impl output"
-        (out, v)
-      else bad
-    | _, _, _, _, _ => bad
   | ["spec", t] =>
     match W.find t with
     | none => ("no-such-type", .skip "type not in this back-end")
@@ -388,6 +360,143 @@ def step (line impl : String) : String × Verdict :=
           else .fail ("units not matching their published definition: " ++ ", ".intercalate bad
                       ++ (if missing then " (unit count differs from the definition table)" else ""))
       (out, v)
+  | "rate" :: tq :: pq :: ta :: tu :: pm :: pu :: op :: rest =>
+    match W.find tq, W.find pq, C.parse ta, tu.toNat?, C.parse pm, pu.toNat? with
+    | some TT, some TP, some ta, some tu, some pm, some pu =>
+      let rate : Rate A := ⟨ta, tu, pm, pu⟩
+      let vTa := R.val ta
+      let vPm := R.val pm
+      match op, rest with
+      | "acc", [] =>
+        let out := rateFields C rate ++ "|" ++ rateFields C rate.reciprocal ++ "|"
+          ++ rateFields C rate.reciprocal.reciprocal ++ "|"
+          ++ rateFields C (Rate.fromQtyVals ⟨ta, tu⟩ ⟨pm, pu⟩)
+        (out, check (impl == out) "rate accessors / reciprocal / from_qty_vals do not report exactly the four components")
+      | "mulq", [qi, qa] =>
+        match qi.toNat?, C.parse qa with
+        | some qi, some qa =>
+          let q : Q A Nat := ⟨qa, qi⟩
+          let r1 := Rate.mulQ R TP rate q
+          let s1 := resStr (qStr C) r1
+          let s2 := if TP.isAmount then "na" else s1
+          let s3 := if TT.isAmount then "na" else
+            resStr (qStr C) (do Rate.divQ R TT (← r1) rate)
+          let out := s1 ++ "|" ++ s2 ++ "|" ++ s3
+          let v : Verdict :=
+            match impl.splitOn "|", R.val qa, vTa, vPm with
+            | [i1, i2, i3], some qv, some tav, some pmv =>
+              let a1 := approxRateApply R M TP (Approx.exact qv) qi pu (Approx.exact pmv) (Approx.exact tav)
+              match a1 with
+              | .error _ =>
+                check (i1 == "panic:unit-mismatch" && (i2 == "na" || i2 == i1))
+                  "different units of a per-quantity without reference unit must give the documented panic"
+              | .ok a1 =>
+                let both := check (i2 == "na" || i2 == i1) "rate * q and q * rate differ"
+                let v1 := match parseQ C i1 with
+                  | some (u, z) =>
+                    (check (u == tu) "rate * q is not expressed in the term unit").and
+                      (Approx.judge a1 (R.val z) "rate * q is not term amount x (value / per value) within rounding")
+                  | none => .skip "panic or unparsed"
+                -- (rate * q) / rate returns q (expressed in the per unit)
+                let v3 := if i3 == "na" then Verdict.ok else
+                  match parseQ C i3, a1 with
+                  | some (u, z), some a1 =>
+                    match approxRateApply R M TT a1 tu tu (Approx.exact tav) (Approx.exact pmv) with
+                    | .ok a3 =>
+                      (check (u == pu) "(rate * q) / rate is not expressed in the per unit").and
+                        (Approx.judge a3 (R.val z) "(rate * q) / rate does not return the original value within rounding")
+                    | .error _ => .skip "mismatch"
+                  | _, _ => .skip "panic or unparsed"
+                (both.and v1).and v3
+            | _, _, _, _ => .skip "non-finite or unparsed"
+          (out, v)
+        | _, _ => bad
+      | "divq", [qi, qa] =>
+        match qi.toNat?, C.parse qa with
+        | some qi, some qa =>
+          let q : Q A Nat := ⟨qa, qi⟩
+          let r1 := Rate.divQ R TT q rate
+          let s1 := if TT.isAmount then "na" else resStr (qStr C) r1
+          let s2 := if TT.isAmount then "na" else resStr (qStr C) (Rate.mulQ R TT rate.reciprocal q)
+          let s3 := if TT.isAmount then "na" else resStr (qStr C) (do Rate.mulQ R TP rate (← r1))
+          let out := s1 ++ "|" ++ s2 ++ "|" ++ s3
+          let v : Verdict :=
+            if TT.isAmount then check (impl == out) "operators not available for the dimensionless amount" else
+            match impl.splitOn "|", R.val qa, vTa, vPm with
+            | [i1, i2, i3], some qv, some tav, some pmv =>
+              match approxRateApply R M TT (Approx.exact qv) qi tu (Approx.exact tav) (Approx.exact pmv) with
+              | .error _ =>
+                check (i1 == "panic:unit-mismatch" && i2 == i1)
+                  "different units of a term quantity without reference unit must give the documented panic"
+              | .ok a1 =>
+                let v1 := match parseQ C i1 with
+                  | some (u, z) =>
+                    (check (u == pu) "q / rate is not expressed in the per unit").and
+                      (Approx.judge a1 (R.val z) "q / rate is not per amount x (value / term value) within rounding")
+                  | none => .skip "panic or unparsed"
+                let v2 := match parseQ C i2 with
+                  | some (u, z) =>
+                    (check (u == pu) "q * reciprocal is not expressed in the per unit").and
+                      (Approx.judge a1 (R.val z) "q * reciprocal(rate) disagrees with q / rate beyond rounding")
+                  | none => .skip "panic or unparsed"
+                let v3 := match parseQ C i3, a1 with
+                  | some (u, z), some a1 =>
+                    match approxRateApply R M TP a1 pu pu (Approx.exact pmv) (Approx.exact tav) with
+                    | .ok a3 =>
+                      (check (u == tu) "rate * (q / rate) is not expressed in the term unit").and
+                        (Approx.judge a3 (R.val z) "rate * (q / rate) does not return the original value within rounding")
+                    | .error _ => .skip "mismatch"
+                  | _, _ => .skip "panic or unparsed"
+                (v1.and v2).and v3
+            | _, _, _, _ => .skip "non-finite or unparsed"
+          (out, v)
+        | _, _ => bad
+      | _, _ => bad
+    | _, _, _, _, _, _ => bad
+  | ["tconv", t, rows, i, a, j] =>
+    match W.find t, parseRows C rows, i.toNat?, C.parse a, j.toNat? with
+    | some _, some rows, some i, some a, some j =>
+      let out := optQStr C (tconv R rows ⟨a, i⟩ j)
+      (out, check (impl == out)
+        "table conversion is not: value unchanged for the same unit, else amount x factor + offset of the FIRST matching row, else nothing")
+    | _, _, _, _, _ => bad
+  | ["temp", "rows"] =>
+    match W.find "Temperature" with
+    | none => ("no-such-type", .skip "type not in this back-end")
+    | some T =>
+      match tempRows R T with
+      | none => ("untranslatable", .skip "temperature table not available")
+      | some rows =>
+        let out := ";".intercalate (rows.map (fun r => s!"{r.fromU}:{r.toU}:{C.render r.factor}:{C.render r.offset}"))
+        (out, check (impl == out) "TEMPERATURE_CONVERTER.mappings differs from the declared rows")
+  | ["temp", "conv", i, a, j] =>
+    match W.find "Temperature", i.toNat?, C.parse a, j.toNat? with
+    | some T, some i, some a, some j =>
+      match tempRows R T with
+      | none => ("untranslatable", .skip "temperature table not available")
+      | some rows =>
+        let out := optQStr C (tconv R rows ⟨a, i⟩ j)
+        let nameOf (u : Nat) : Text := (T.units[u]?.map (·.name)).getD []
+        let v : Verdict :=
+          if i == j then check (impl == s!"some {i} {C.render a}") "same-unit conversion must return the value unchanged"
+          else match Spec.Temp.formula (nameOf i) (nameOf j), R.val a with
+            | some (F, O), some x =>
+              match impl.splitOn " " with
+              | ["some", u, z] =>
+                match u.toNat?, C.parse z with
+                | some u, some z =>
+                  -- factor and offset are the published constants up to one rounding (or 18 digits)
+                  let slack (q : Rat) : Rat := M.E q + 1 / (2 * pow10 18)
+                  let fApprox : Approx := ⟨F, slack F, true⟩
+                  let oApprox : Approx := ⟨O, slack O, true⟩
+                  (check (u == j) "temperature conversion does not carry the requested unit").and
+                    (Approx.judge (some (Approx.add M (Approx.mul M (Approx.exact x) fApprox) oApprox)) (R.val z)
+                      "temperature conversion does not match the exact physical formula within rounding")
+                | _, _ => .skip "unparsed"
+              | _ => if impl == "none" then .fail "the temperature table does not cover this unit pair" else .skip "panic or unparsed"
+            | _, _ => .skip "non-finite or unknown unit"
+        (out, v)
+    | _, _, _, _ => bad
   | ["si", "iter"] =>
     let row (i : Text) : String :=
       s!"{Text.toString i}:h{hexOfText ((SIPrefix.name i).getD [])}:h{hexOfText ((SIPrefix.abbr i).getD [])}:{(SIPrefix.exp i).getD 999}"
@@ -527,6 +636,66 @@ def step (line impl : String) : String × Verdict :=
         ++ resStr (qStr C) (sdiv R q k)
       (out, check (impl == out) "k*q, q*k or q/k is not the amount type's own product/quotient in the same unit")
     | _, _, _, _ => bad
+  | [op, t, i, a, j, b] =>
+    match W.find t, i.toNat?, C.parse a, j.toNat?, C.parse b with
+    | some T, some i, some a, some j, some b =>
+      let x : Q A Nat := ⟨a, i⟩
+      let y : Q A Nat := ⟨b, j⟩
+      let wr := T.kind == .withRef
+      let s1 := R.val (T.scaleOf R i)
+      let s2 := R.val (T.scaleOf R j)
+      if op == "add" || op == "sub" then
+        let isSub := op == "sub"
+        let r := if wr then (if isSub then hrSub R (T.qt R) x y else hrAdd R (T.qt R) x y)
+                 else (if isSub then nrSub R x y else nrAdd R x y)
+        let out := resStr (qStr C) r
+        let own := if isSub then R.sub a b else R.add a b
+        let v : Verdict :=
+          if !wr then
+            -- C10
+            if i != j then check (impl == "panic:unit-mismatch") "different units of a type without reference unit must panic"
+            else check (impl == resStr (qStr C) (own.map (fun z => (⟨z, i⟩ : Q A Nat))))
+              "same-unit result differs from the amount type's own operator"
+          else match parseQ C impl with
+            | some (u', z) =>
+              match s1, s2 with
+              | some s1, some s2 =>
+                let sameOwn := match own with
+                  | .ok o => R.same z o
+                  | .error _ => false
+                Oracle.c03addsub M isSub i j u' s1 s2 (R.val a) (R.val b) sameOwn (R.val z)
+              | _, _ => .skip "non-finite scale"
+            | none => if impl.startsWith "panic:" then
+                        (if i == j then check (impl == resStr (qStr C) (own.map (fun z => (⟨z, i⟩ : Q A Nat))))
+                            "same-unit result differs from the amount type's own operator"
+                         else .skip "panic")
+                      else .skip "unparsed impl output"
+        (out, v)
+      else if op == "div" then
+        let r := if wr then hrDiv R (T.qt R) x y else nrDiv R x y
+        let out := resStr C.render r
+        let own := R.div a b
+        let v : Verdict :=
+          if !wr then
+            if i != j then check (impl == "panic:unit-mismatch") "different units of a type without reference unit must panic"
+            else check (impl == resStr C.render own) "same-unit quotient differs from the amount type's own operator"
+          else match C.parse impl with
+            | some z =>
+              match s1, s2 with
+              | some s1, some s2 =>
+                let sameOwn := match own with
+                  | .ok o => R.same z o
+                  | .error _ => false
+                Oracle.c03div M i j s1 s2 (R.val a) (R.val b) sameOwn (R.val z)
+              | _, _ => .skip "non-finite scale"
+            | none => if impl.startsWith "panic:" then
+                        (if i == j then check (impl == resStr C.render own)
+                            "same-unit quotient differs from the amount type's own operator"
+                         else .skip "panic")
+                      else .skip "unparsed impl output"
+        (out, v)
+      else bad
+    | _, _, _, _, _ => bad
   | _ => bad
 
 end run
